@@ -40,6 +40,16 @@ def make_case(tier, seed, index):
     if tier == "thorough":
         pf["steps"] = (3, 50)
     spec = gen.gen_spec(rng, pf)
+    if rng.random() < 0.2:
+        # whole-number constants entered as integers through the API (Python int or numpy integer), on targetable parameters
+        # without limits and calibration factors: they are numbers like any other
+        cands_i = [p for p in spec["pars"] if p["db"] and not p["function"] and not p["timed"] and p.get("targetable") and p["format"] in ("rate", "probability", "number") and p["name"].startswith("q")]
+        for p in cands_i[:2]:
+            for pop in spec["pops"]:
+                spec["values"].setdefault(p["name"], {})[pop] = {"a": float(rng.integers(1, 4)), "int": "python" if rng.random() < 0.5 else "numpy"}
+            p["min"] = p["max"] = None
+            spec.get("yfactors", {}).pop(p["name"], None)
+            spec.get("meta_yfactors", {}).pop(p["name"], None)
     ps = gen.gen_progspec(rng, spec) if rng.random() < 0.5 else None
     scen = None
     if rng.random() < 0.3:
